@@ -305,7 +305,7 @@ def run_batch(driver, cfg, tier, budget_s=None, max_runs=None, workers=None, lab
                 except Exception as e:
                     totals.harness_errors.append('worker died: {0!r}'.format(e))
                     stop = True
-            if totals.violations and stop_on_violation:
+            if totals.violations and stop_on_violation and not os.environ.get('VERIF_NO_STOP'):
                 # known findings do not end the search: only a violation nothing lists does
                 if _known_cache[0] is None:
                     _known_cache[0] = load_known_findings()
